@@ -82,7 +82,7 @@ func TestVerifEnumC08(t *testing.T) {
 
 	// 0. classifier: IsLocal/IsUnspecified/IsLoopback as used by the stripper vs the netip reference, on
 	// the whole boundary alphabet and on every /8 and the edges of every range
-	r.Begin("classifier", "util.IsLocal || unspecified || loopback vs the netip-prefix reference for the boundary alphabet and all a.b.0.1 / a.b.255.254 with a,b in 0..255")
+	r.Begin("classifier", "util.IsLocal || unspecified || loopback vs the netip-prefix reference for the boundary alphabet, all a.b.0.1 / a.b.255.254 with a,b in 0..255, every first 16-bit group xxyy::1 and IPv4-mapped spellings around every range")
 	if r.Shard0() {
 		chk := func(s string) {
 			ip := net.ParseIP(s)
@@ -105,13 +105,22 @@ func TestVerifEnumC08(t *testing.T) {
 			}
 		}
 		for hi := 0; hi < 256; hi++ {
-			chk(fmt.Sprintf("%02x00::1", hi))
+			for lo := 0; lo < 256; lo++ {
+				chk(fmt.Sprintf("%02x%02x::1", hi, lo))
+			}
 			chk(fmt.Sprintf("%02xff:ffff::1", hi))
+			chk(fmt.Sprintf("::ffff:%d.0.0.1", hi))
+			chk(fmt.Sprintf("::ffff:%d.255.255.254", hi))
+		}
+		for b := 0; b < 256; b++ {
+			for _, a := range []int{10, 100, 127, 169, 172, 192} {
+				chk(fmt.Sprintf("::ffff:%d.%d.0.1", a, b))
+			}
 		}
 	}
 
 	// 1. single candidate of every type and address, in every position/layout, 1-2 media sections
-	r.Begin("single", "one candidate: address alphabet (40) x candidate type (4) x layout (3) x media sections (1-2) x section carrying it")
+	r.Begin("single", "one candidate: address alphabet (48) x candidate type (4) x layout (3) x media sections (1-2) x section carrying it")
 	for _, a := range addrAlphabet {
 		for _, typ := range candTypes {
 			for layout := 0; layout < 3; layout++ {
